@@ -3,7 +3,7 @@
 id=$1; x=$2; shift; shift; props=${@:-$id}
 wt=/tmp/seed_$id
 cd $wt || exit 2
-git checkout -q -- src
+git checkout -q -- src; git checkout -q --detach $(git -C /repo rev-parse HEAD) 2>/dev/null
 d0=$(PYTHONPATH=$wt/src /venv/bin/python _seed/${x}_demo.py >/dev/null 2>&1; echo $?)
 git apply _seed/$x.diff || { echo "$id-$x: PATCH DOES NOT APPLY"; exit 2; }
 d1=$(PYTHONPATH=$wt/src /venv/bin/python _seed/${x}_demo.py >/dev/null 2>&1; echo $?)
@@ -16,6 +16,6 @@ for p in $props; do
   first=$(echo "$out" | grep -m1 "^  kind=" | cut -c1-220)
   res="$res [$p exit=$ec violations=$nv $first]"
 done
-git checkout -q -- src
+git checkout -q -- src; git checkout -q --detach $(git -C /repo rev-parse HEAD) 2>/dev/null
 rm -rf /tmp/vfout_$id
 echo "$id-$x: demo clean=$d0 patched=$d1; pytest: $py;$res"
